@@ -80,7 +80,8 @@ def str_dict(node):
 # ---------------------------------------------------------------------------
 # A snapshot operation is abstracted to the set of its control-flow PATHS; a
 # path is a list of events  A(cquire) L(release) R(ead) ("C", method).
-#   A/L  `with subject:` (also subject.__enter__()/__exit__(), subject._lock.acquire()/release())
+#   A/L  `with subject:` only (explicit subject.__enter__()/__exit__() or subject._lock.acquire()/release() are
+#        refused: without try/finally an exception would leave the lock held)
 #   R    any read of the subject's node structure: a structural attribute or
 #        method of the subject, iteration over the subject, and every use of a
 #        value *derived* from such a read (helper chains `self._root._add_from(..)`,
@@ -95,7 +96,7 @@ def str_dict(node):
 # unknown attributes/methods of the subject and the subject escaping into an
 # unknown callee are refused (Unsupported -> exit 2 -> obligations not
 # discharged).  Exceptional exits need no paths of their own: `with` releases
-# on every exit, and explicit acquire/release calls are events themselves.
+# on every exit (explicit acquire/release calls are refused).
 #: attributes / methods of the tree object that never touch the node structure
 NON_STRUCTURAL = {"name", "DEFAULT_KEY_MAP", "DEFAULT_VALUE_MAP", "DEFAULT_CONNECTOR_STYLE", "__class__",
                   "serialize_mapper", "deserialize_mapper", "calc_data_id"}
@@ -138,12 +139,8 @@ def lock_skeleton(fn: ast.FunctionDef, subject: str):
                 tainted.add(x.id)
 
     def subject_member(attr, n, ev, *, call):
-        if call and attr == "__enter__":
-            ev.append("A")
-            return False
-        if call and attr == "__exit__":
-            ev.append("L")
-            return False
+        if attr in ("__enter__", "__exit__"):
+            bad(f"explicit {subject}.{attr} in a snapshot operation (use `with {subject}:`)", n)
         if attr in SNAPSHOT_METHODS:
             if not call:
                 bad(f"bound method {attr} of {subject} taken without calling it", n)
@@ -191,10 +188,9 @@ def lock_skeleton(fn: ast.FunctionDef, subject: str):
                 return subject_member(f.attr, n, ev, call=True)
             if (isinstance(f, ast.Attribute) and isinstance(f.value, ast.Attribute) and is_subject(f.value.value)
                     and f.value.attr == "_lock"):
-                if n.args or n.keywords or f.attr not in ("acquire", "release"):
-                    bad(f"unsupported use of {subject}._lock.{f.attr}", n)
-                ev.append("A" if f.attr == "acquire" else "L")
-                return False
+                # explicit acquire()/release() pairs are refused: an exception between them leaves the
+                # lock held, and the path model below has no exceptional exits (`with` releases on all)
+                bad(f"explicit {subject}._lock.{f.attr}() in a snapshot operation (use `with {subject}:`)", n)
             if any(is_subject(a) for a in n.args) or any(is_subject(k.value) for k in n.keywords):
                 if isinstance(f, ast.Name) and f.id in DELEGATE_FUNCS:
                     args_of(n, ev)
